@@ -126,8 +126,11 @@ class GCPMapping:
         return (
             "odc.geo._gcp.GCPMapping",
             str(self._crs),
-            self._wld,
-            self._pix,
+            # raw bytes: dask turns arrays nested in this tuple into their (rounded) repr
+            *(
+                (str(a.dtype), a.shape, a.tobytes())
+                for a in (np.ascontiguousarray(self._wld), np.ascontiguousarray(self._pix))
+            ),
         )
 
     @staticmethod
